@@ -1,0 +1,8 @@
+//go:build !verif
+
+package npm
+
+import "context"
+
+// verifExportTree is a no-op unless built with the verif tag.
+func verifExportTree(ctx context.Context, root *treeNode) {}
